@@ -334,7 +334,10 @@ impl<H: Header> DynSizedStructure<H> {
         let ptr = bytes.as_ptr().cast::<H>();
         let hdr = unsafe { &*ptr };
 
-        if hdr.payload_len() > bytes.len() {
+        // `bytes` is at least header-sized (guaranteed by `BytesRef`), so this
+        // compares the reported total size with the available bytes without
+        // risking an overflow for corrupt headers.
+        if hdr.payload_len() > bytes.len() - mem::size_of::<H>() {
             return Err(MemoryError::InvalidReportedTotalSize);
         }
 
